@@ -90,6 +90,11 @@ CHECKS = {
    "The finite set of go:generate directives (41 with present inputs) is enumerated completely; cmd/ogen, cmd/jschemagen and tools/mkformattest are built from the current tree and run with the directive's own arguments into scratch; every produced file must be byte-identical to the checked-in one and no checked-in generated file may be left unreproduced. Thorough repeats under GOMAXPROCS=1 and 3.",
    "Runs in a mirror directory (symlinks) so relative paths equal the directive's; GOPACKAGE/GOFILE set as go generate does; the emptied k8s input is skipped and listed.",
    "DESIGN.md §2 C14"),
+ "C02": ("genlab", "exploration",
+   "the Go compiler as monitor: every package the real generator writes is built (go build) and its test files compiled (go test -run '^$') in a scratch module pinned to /repo's requirements; generator errors classified (ErrGoFormat / template execution / write failure / panic) against spec-level rejections",
+   "Jobs: every corpus document under a PRNG pairwise covering array of the 11 features plus 6 fixed feature sets (thorough: all 2^11 subsets on a base document), a benign base document with one hostile string injected at each of 77 places (schema, property, parameter, header, operation, tag, server, security scheme, enum value, discriminator, x-ogen-* names; descriptions; paths) from a pool of 1531 place x class cells (quotes, backslashes, newlines, control characters, Go keywords and predeclared identifiers, identifiers the generated package declares itself, digits-first, Unicode, names colliding after normalisation), multi-place combinations, PRNG documents over the feature grammar, and a crafted regression list. Oracle: generation succeeds => one package, go build and test compilation exit 0; generation fails => the error is a spec-level or not-implemented diagnostic, never ErrGoFormat, a template execution error, a write failure or a panic. Failing packages are attributed by rebuilding the batch without them; a violating multi-place job is re-run one place at a time.",
+   "Signatures are <kind>:<place>/<class of string> (or document/<diagnostic class>); the 26 listed known findings are the naming-collision and wrapper-sharing defects (no reserved-name policy, siblings colliding after normalisation, handler-local aliases, shared status-code/generic wrappers, webhook security). A test binary that compiles but exits non-zero at start is tallied only.",
+   "DESIGN.md §2 C02"),
  "C07": ("genlab", "exploration",
    "differential execution of the real parser and generator on a document and on its twin with PRNG-chosen non-recursive references replaced by copies of their targets (the harness's own RFC 3986 / RFC 6901 resolver and inliner); parsed API and IR compared as labelled graphs by bisimulation, generated bytes compared where names must coincide; direct invariants on shared components; cycle and depth documents in worker processes; Expand round trip",
    "Random reference graphs (DAGs over schemas, parameters, headers, responses, request bodies, examples, security schemes and path items; 1-3 files; shared targets used from 2-3 sites under different names; percent- and tilde-escaped pointer segments), 18 crafted shared-target documents, a 24-document pointer-escaping matrix, a 3-file relative-path document and the corpus (every inlinable reference, plus one inline-everything subset per document): for each (document, subset of references) both forms must parse or both fail, the two *openapi.API values must be equal up to reference bookkeeping, both must generate or both fail, the IR shapes must be bisimilar, and generated files must be byte-identical when no schema or response reference was inlined. Direct checks need no twin: a header's map key equals its Name in API and IR, the API's operation set equals the document's, status-code wrappers match the response kind, no two reference keys denote one location. 44 cycle documents (self, 2- and 3-cycles, tail into a cycle, across files; 7 component kinds) must fail with a located 'infinite recursion' diagnostic, schema cycles must generate (a sample is compiled), reference chains of length 3..5000 run in child processes (a dead worker is a violation, depth beyond the limit must be an error). parser.Expand -> yaml.Marshal -> parse must give an equal API (Components excluded).",
